@@ -1109,3 +1109,105 @@ func TestC17Rapid(t *testing.T) {
 	}
 	RunRapid(t, p, "C17Rapid")
 }
+
+// ---------------------------------------------------------------------------
+// cancellation racing with a local Close: the usual `cancel(); conn.Close()` of a caller that gives up.
+// Whatever the blocked operation returns, it returns promptly and its helper goroutine ends.
+
+type CloseRaceCase struct {
+	Transport  string `json:"transport"` // unix | tcp | pipe
+	Op         string `json:"op"`        // receive | up-read | send
+	CloseFirst bool   `json:"close_first"`
+	Rounds     int    `json:"rounds"`
+}
+
+func execCloseRace(c CloseRaceCase, bound time.Duration) error {
+	bound *= WatchdogScale()
+	for round := 0; round < c.Rounds; round++ {
+		cli, srv, cleanup, err := c17Peer(c.Transport, bound)
+		if err != nil {
+			return err
+		}
+		ctx, cancel := context.WithCancel(context.Background())
+		done := make(chan error, 1)
+		big := string(bytes.Repeat([]byte("W"), 4<<20))
+		switch c.Op {
+		case "send":
+			go func() { _, e := cli.Send(ctx, "x.y.Big", map[string]string{"w": big}, 0); done <- e }()
+		default:
+			// (the in-memory transport has no buffer: the peer reads the request while Send writes it)
+			reqRead := make(chan error, 1)
+			go func() { _, rerr := srvReadFrame(srv, bound); reqRead <- rerr }()
+			recv, serr := cli.Send(ctx, "x.y.M", nil, varlink.More)
+			if serr != nil {
+				cancel()
+				srv.Close()
+				cli.Close()
+				cleanup()
+				return fmt.Errorf("round %d: Send failed: %v", round, serr)
+			}
+			if rerr := <-reqRead; rerr != nil {
+				cancel()
+				srv.Close()
+				cli.Close()
+				cleanup()
+				return fmt.Errorf("HARNESS: round %d: the request did not reach the peer: %v", round, rerr)
+			}
+			go func() { var out json.RawMessage; _, e := recv(ctx, &out); done <- e }()
+		}
+		time.Sleep(time.Duration(100+37*(round%9)) * time.Microsecond) // the operation is blocked now (nothing arrives, nothing is read)
+		if c.CloseFirst {
+			cli.Close()
+			cancel()
+		} else {
+			cancel()
+			cli.Close()
+		}
+		select {
+		case <-done:
+		case <-time.After(bound):
+			srv.Close()
+			cleanup()
+			return fmt.Errorf("round %d: %s on %s did not return within %v after its context was cancelled and its connection closed", round, c.Op, c.Transport, bound)
+		}
+		srv.Close()
+		cleanup()
+	}
+	if left := LibGoroutines(bound / 2); left != "" {
+		return fmt.Errorf("after %d rounds of cancel + Close on a blocked %s (%s): library goroutines left behind:\n%s", c.Rounds, c.Op, c.Transport, left)
+	}
+	return nil
+}
+
+var propC17CloseRace = Register(Prop[CloseRaceCase]{ID: "C17", Name: "C17closerace", Check: func(c CloseRaceCase, st *Stats) error {
+	err := execCloseRace(c, c17Bound)
+	st.Case(HashOf(c), true, func() interface{} { return c }, "cancel+close-race", "transport:"+c.Transport, "op:"+c.Op)
+	return err
+}})
+
+func TestC17CloseRace(t *testing.T) {
+	rounds := 25
+	if Thorough() {
+		rounds = 150
+	}
+	var cases []CloseRaceCase
+	for _, tr := range []string{"unix", "tcp", "pipe"} {
+		for _, op := range []string{"receive", "send"} {
+			for _, cf := range []bool{false, true} {
+				cases = append(cases, CloseRaceCase{Transport: tr, Op: op, CloseFirst: cf, Rounds: rounds})
+			}
+		}
+	}
+	shard, nshards := Shard()
+	i := 0
+	RunCases(t, propC17CloseRace, "C17CloseRace", true, func() (CloseRaceCase, bool) {
+		for i < len(cases) {
+			k := i
+			i++
+			if k%nshards == shard {
+				return cases[k], true
+			}
+		}
+		return CloseRaceCase{}, false
+	})
+}
